@@ -273,3 +273,17 @@ L(name='guards_link', props=['C20'], src='guards_link.cpp', flags=['-Wno-depreca
   assumptions=['bounded link: never counted as proved'])
 for _u in ('oplm_ctor', 'oplm_add_point', 'oplm_reset', 'dyn_item_ctor', 'dyn_ctor'):
     REPRO[_u] = dict(name='guards_link', src='guards_link.cpp', flags=['-Wno-deprecated-declarations', '-DNDEBUG'], args=[])
+GEOF = ['-Wno-deprecated-declarations', '-DNDEBUG']
+GB = {'quick': 'all sorted arrays of length <= 6 over 3-4 alphabets (bottom/middle/top of the key range), epsilon 0..3, sequential and every 2-chunk split; 12 random arrays (n <= 3050) x epsilon {1,4,16,64}, sequential and 5 chunks; key types uint64/int64/uint32/int16/uint8',
+      'thorough': 'arrays of length <= 8, 60 random arrays per epsilon'}
+L(name='geo_accuracy_link', props=['C03'], src='geo_link.cpp', flags=GEOF, args={'quick': ['quick'], 'thorough': ['thorough']}, bound=GB,
+  rule='real make_segmentation on each chunk; fed points recorded through the hook PGM_INDEX_VERIF_ADD_POINT; exact __int128 rational oracle: order, first occurrences fed, exactly-one coverage, extreme line within epsilon, reported (slope,intercept) within epsilon+1/2, feasibility of each segment',
+  assumptions=['bounded link: never counted as proved', 'integer key types only (floating keys are covered by pgm_static_link end to end)'])
+L(name='geo_maximality_link', props=['C04'], src='geo_link.cpp', flags=GEOF, args={'quick': ['quick'], 'thorough': ['thorough']}, bound=GB,
+  rule='same runs; maximality judged by an independent feasibility test (lines through pairs of band end-points, band clamped at rank 0) on each segment plus the first point of the next one; consecutive starts > 2*epsilon ranks apart',
+  assumptions=['bounded link: never counted as proved'])
+for _u in ('ms_add_point', 'make_segmentation', 'oplm_reset'):
+    REPRO[_u] = dict(name='geo_accuracy_link', src='geo_link.cpp', flags=GEOF, args=['quick'])
+for _u in ('pgmindex_segments_count', 'lemma_counting'):
+    REPRO[_u] = dict(name='geo_maximality_link', src='geo_link.cpp', flags=GEOF, args=['quick'])
+REPRO['cwrap_search'] = dict(name='pgm_static_link', src='static_link.cpp', flags=STATIC + ['-DLINK_PGM'], args=['quick'])
